@@ -574,6 +574,7 @@ type Guard struct {
 	Cond ssa.Value // with leading negations removed
 	Pol  bool
 	If   *ssa.If
+	Edge Edge // the CFG edge on which the condition has that truth value
 }
 
 // normCond strips `!` and returns the flipped polarity.
@@ -623,7 +624,7 @@ func GuardsAt(b *ssa.BasicBlock) []Guard {
 		for idx := 0; idx < 2; idx++ {
 			if edgeDominates(Edge{d, idx}, b) {
 				c, pol := normCond(iff.Cond, idx == 0)
-				out = append(out, Guard{Cond: c, Pol: pol, If: iff})
+				out = append(out, Guard{Cond: c, Pol: pol, If: iff, Edge: Edge{d, idx}})
 			}
 		}
 	}
